@@ -80,7 +80,7 @@ BOUNDS = {
                  "json_depth": 3, "json_width": 2, "json_depth3": "all children of depth <= 2",
                  "json_nesting": 30, "tag_depth": 3, "tag_atoms": 7},
 }
-CAP_S = {"quick": 240, "thorough": 2400}
+CAP_S = {"quick": 300, "thorough": 2400}
 
 STEP_BUDGET = 5000          # process() calls per parse; legitimate parses here need < 200
 CPU_GUARD_S = 1             # user-mode CPU seconds of this process per term (121 parses normally take ~2 ms)
@@ -1316,8 +1316,8 @@ def run_unit(unit, tier):
                 hung = True
                 if k not in pending:
                     pending.append(k)
-            for e in exps.values():
-                res.outcomes.add(t[0] + ":F" if e is FAILV else "%s:ok%d" % (t[0], e[0]))
+            for e in set(-1 if e is FAILV else e[0] for e in exps.values()):
+                res.outcomes.add(t[0] + ":F" if e < 0 else "%s:ok%d" % (t[0], e))
             for n, k in enumerate(pending):
                 # the (expensive) variants with earlier operations are tried for the first few disagreements only
                 _report_term(res, t, ops, k, dict(hist, index=ti) if n < 4 else None, deep=n < 4)
